@@ -458,21 +458,17 @@ func ruleSearchPredicates(c *eng.Ctx) {
 		if fn == nil {
 			continue
 		}
-		ok := false
-		for _, r := range eng.Returns(fn) {
-			if len(r.Results) == 1 && pr.m(r.Results[0]) {
-				ok = true
-			}
-		}
+		// every return of the predicate is the comparison — or the constant true with which a read error aborts the search
+		nRet, ok := allReturns(fn, nil, func(rv []ssa.Value) bool { return len(rv) == 1 && pr.m(rv[0]) }, func(rv []ssa.Value) bool { return len(rv) == 1 && constBool(rv[0], true) })
+		nShape, _ := allReturns(fn, func(rv []ssa.Value) bool { return len(rv) == 1 && pr.m(rv[0]) })
+		ok = ok && nRet > 0 && nShape > 0
 		c.Check(ok, "search predicate of "+strings.TrimSuffix(strings.TrimPrefix(pr.fn, cl), "$1"), p.Pos(fn.Pos()), "returns "+pr.desc, "the binary-search predicate is not `"+pr.desc+"`: lookups land on the wrong segment/entry")
 	}
 	if fn := c.Fn(cl + "findSegmentContains"); fn != nil {
-		ok := false
-		for _, r := range eng.Returns(fn) {
-			if len(r.Results) == 2 && eng.Bin(token.LEQ, eng.LoadNamed("BaseOffset", nil), eng.Param("offset"))(r.Results[1]) {
-				ok = true
-			}
-		}
+		nRet, ok := allReturns(fn, func(rv []ssa.Value) bool { return len(rv) == 2 && !eng.NilConst(rv[0]) }, func(rv []ssa.Value) bool {
+			return eng.Bin(token.LEQ, eng.LoadNamed("BaseOffset", nil), eng.Param("offset"))(rv[1])
+		})
+		ok = ok && nRet > 0
 		c.Check(ok, "findSegmentContains bound", p.Pos(fn.Pos()), "contains = seg.BaseOffset <= offset", "findSegmentContains does not report BaseOffset <= offset")
 	}
 	if fn := c.Fn(cl + "(*commitLog).Truncate"); fn != nil {
